@@ -20,6 +20,38 @@ def _has_sym(x):
     return False
 
 
+class SymArray(np.ndarray):
+    """object array whose comparisons fork element-wise (numpy itself would call float() on a symbolic operand)
+    and return a plain boolean array - exactly what the real float comparison returns on each path"""
+    __array_priority__ = 100
+
+    def _cmp(self, other, op):
+        other_arr = isinstance(other, np.ndarray)
+        out = np.empty(self.shape, dtype=bool)
+        for idx in np.ndindex(*self.shape):
+            o = other[idx] if other_arr else other
+            out[idx] = bool(op(self[idx], o))
+        return out
+
+    def __ge__(self, o):
+        return self._cmp(o, lambda a, b: a >= b)
+
+    def __gt__(self, o):
+        return self._cmp(o, lambda a, b: a > b)
+
+    def __le__(self, o):
+        return self._cmp(o, lambda a, b: a <= b)
+
+    def __lt__(self, o):
+        return self._cmp(o, lambda a, b: a < b)
+
+    def __getitem__(self, idx):
+        r = np.ndarray.__getitem__(self, idx)
+        return r
+
+    __hash__ = None
+
+
 class _Linalg:
     def __init__(self, shim):
         self.shim = shim
@@ -46,7 +78,7 @@ class _Linalg:
                 eng.assume(lift(sum(V[k, i] * V[k, j] for k in range(n))) == (1 if i == j else 0), 'linalg')
         for i in range(n - 1):
             eng.assume(w[i].t <= w[i + 1].t, 'linalg')
-        return w, V
+        return w.view(SymArray), V
 
     def qr(self, A, mode='reduced'):
         A = np.asarray(A)
